@@ -28,5 +28,9 @@ Print Assumptions tie_wbcsr_construct.
 Theorem tie_evmon_arith : forall n dw al,
   CsrEvent.reg_size n dw = gen_evmon_reg_size n dw /\
   CsrEvent.addr_width n dw al = gen_evmon_addr_width (gen_evmon_reg_size n dw) al.
-Proof. intros. split; reflexivity. Qed.
+Proof.
+  (* arithmetic rearrangements of the source (1 + x vs x + 1, max operands swapped) must not matter *)
+  intros. unfold CsrEvent.addr_width, CsrEvent.reg_size, gen_evmon_addr_width, gen_evmon_reg_size.
+  split; [f_equal; lia | lia].
+Qed.
 Print Assumptions tie_evmon_arith.
